@@ -127,6 +127,7 @@ func cmdCheck(args []string) int {
 		// deeper exploration bounds
 		maxBodyCalls, maxResumes = 4, 3
 		termDeep = true
+		genHistDepth = 8
 	}
 	if err == nil {
 		c.guard("META.RUN", func() { spec.Run(c) })
